@@ -81,3 +81,9 @@ func (s *Server) VerifRotateCookieKey() {
 		panic(err)
 	}
 }
+
+// VerifState returns the client's lifecycle state (clientState* constants).
+func (c *Client) VerifState() uint32 { return c.state.Load() }
+
+// VerifClientStateOpen is the state of a client whose handshake completed.
+const VerifClientStateOpen = clientStateOpen
